@@ -2,6 +2,7 @@ package main
 
 import (
 	"fmt"
+	"github.com/zalf-rpm/Hermes2Go/hermes"
 	"math"
 	"os"
 	"path/filepath"
@@ -1038,6 +1039,28 @@ func genSoil(sc *Scenario, r *Rng, p Profile) {
 			h.PS = int(math.Ceil(fc*100)) + r.Range(1, 15)
 			if h.PS > 90 {
 				h.PS = 90
+			}
+			// a third of the transfer-function horizons give the pore volume as it was measured / taken from a table - anywhere
+			// above the wilting point the function yields, also BELOW its field capacity (the model has to keep FC <= PS itself)
+			if rq := NewRng(mix(mix(sc.Seed, uint64(sc.Index)), uint64(1900+b))); rq.Bool(0.33) {
+				var wp float64
+				switch sc.PTF {
+				case 1:
+					_, wp = hermes.PTF1(h.Corg, float64(h.Clay), float64(h.Silt))
+				case 2:
+					_, wp = hermes.PTF2(h.Corg, float64(h.Clay), float64(h.Silt))
+				case 3:
+					_, wp = hermes.PTF3(h.Corg, float64(h.Clay), float64(h.Silt))
+				default:
+					_, wp = hermes.PTF4(h.Corg, float64(h.Clay), float64(h.Sand))
+				}
+				lo := int(math.Ceil(wp*100)) + 3
+				if lo < 28 {
+					lo = 28
+				}
+				if lo < 60 {
+					h.PS = rq.Range(lo, 60)
+				}
 			}
 		}
 		s.Horizons = append(s.Horizons, h)
